@@ -42,3 +42,7 @@ func init() {
 func init() {
 	registerReplay([]string{"(*dht/krpc.NodeAddr).UnmarshalBinary", "(*dht/krpc.NodeInfo).UnmarshalBinary"}, "krpc", "krpc/krpc_replay_test.go", "TestGovcReplayKrpc")
 }
+
+func init() {
+	registerReplay([]string{"dht/exts/getput.startGetTraversal$1"}, "exts/getput", "getput/getput_replay_test.go", "TestGovcReplayGetput")
+}
